@@ -5,6 +5,7 @@ from __future__ import annotations
 import numpy as np
 
 from .. import genwork, oracles
+from ..core import call_watchdog
 
 LEVEL = "exploration"
 RULE = ("direct calls of GENERATORS_MAP[name](np.array(shape), **kwargs) over all shapes r,c in 1..6 plus random shapes, "
@@ -58,8 +59,9 @@ def run(ctx):
                     case = dict(gen=gen, shape=(R, C), kwargs=kw, rng_seed=cseed, consumed=consumed, via_map=via_map)
                     genwork.seed_library_rngs(cseed, consumed)
                     fn = GENERATORS_MAP[gen] if via_map else getattr(LatticeMazeGenerators, gen)
-                    with ctx.guard(f"C01/{gen}/call", case):
+                    with ctx.guard(f"C01/{gen}/call", case), call_watchdog(ctx, 120, f"C01/{gen} {R}x{C}"):
                         maze = fn(np.array([R, C]), **kw)
+                        # (if the watchdog fires the block is left here and the case is reported as inconclusive)
                         ctx.ev()
                         oracles.check_c01(ctx, gen, (R, C), kw, maze, case)
                         if consumed:
